@@ -15,7 +15,7 @@ package main
 //   c12/supply-not-sum/<class>        recorded supply of a divisible asset != sum of the equity entries carrying its code
 //   c12/third-party-debited/<class>   an equity entry decreased although its owner sent no included transfer of that id
 //   c12/negative-equity               a negative equity or supply is readable
-//   c12/frozen-moved                  supply / equity of an asset changed in a block in which it was frozen throughout
+//   c12/frozen-moved/<class>          supply / equity of an asset changed in a block in which it was frozen throughout
 //   c12/minted-by-non-issuer/<class>  supply or holdings of an asset grew by more than its issuer issued / replenished in the block
 //   c12/honest-block-rejected         the validator path rejects the block the miner path produced
 
@@ -743,7 +743,11 @@ func (s *c12s) oracles(b *types.Block, cands []*c12Tx, included map[int]bool, v 
 			}
 		}
 		if moved {
-			c.Fail("c12/frozen-moved", fmt.Sprintf("block %d: asset c%d is frozen before and after the block and was not modified in it, but its supply / equity changed", b.Height(), code), nil)
+			class := "other"
+			if s.taint[code] {
+				class = "foreign-asset-id"
+			}
+			c.Fail("c12/frozen-moved/"+class, fmt.Sprintf("block %d: asset c%d is frozen before and after the block and was not modified in it, but its supply / equity changed", b.Height(), code), nil)
 		} else {
 			c.Count("oracle:frozen-unmoved:ok")
 		}
